@@ -44,7 +44,7 @@ ASSUMPTIONS = ["score-side and performance-side note arrays (Part.note_array / P
                "|mean|+|standardized*std|; that amount (2.5e-7 relative, propagated to onsets and durations) is added to the "
                "tolerance for this normalisation only",
                "alignments without a single match on both sides are outside the domain (only get_matched_notes is run on them)",
-               "performed durations below the codec's documented floor 60/200*0.25 s are not generated and not judged",
+               "performed durations down to 5 ms are generated and judged",
                "order among notes of equal (score onset, pitch) in the matched table is not judged; row order of "
                "get_matched_notes is not judged (the statement orders 'the matched-note table')",
                "a score onset at which only grace notes are matched contributes no knot when remove_ornaments=True"]
@@ -497,7 +497,7 @@ def bucket_case(rng, bucket, tier):
         return W.gen_case(rng, size, mode=rng.choice(["rubato", "jumpy"]), late_start=True)
     if bucket == "tiny":
         return W.gen_case(rng, 0.5, mode=rng.choice(["rubato", "jumpy"]), feats=rng.choice([[], ["chords"], ["graces"], ["pickup"]]),
-                          n_measures=1, divs=rng.choice([1, 2]), extras=rng.choice([None, {"delete": 0.5}]))
+                          n_measures=1, divs=rng.choice([1, 2]), extras=rng.choice([None, {"delete": 0.5}, {"delete": 1.0}]))
     if bucket == "hires":
         return W.gen_case(rng, size, mode=rng.choice(["rubato", "jumpy"]), divs=rng.choice([480, 960]),
                           feats=["chords", "multivoice", "tuplets", "graces", "pickup"])
@@ -567,12 +567,17 @@ def run_case(ctx, case, rng, bucket, label):
         _CFG = ("to_matched_score", sk, pk)
         tms_ok = bool(truth)
         if not truth:
-            # an alignment without a single match is not "an aligned performance": only get_matched_notes (which
-            # documents a warning for it) is run
-            ctx.extra["alignment_without_matches_not_judged"] += 1
+            # an alignment without a single match is not "an aligned performance" (nothing to encode); the matched-note
+            # table of it is the empty table
+            ctx.extra["alignments_without_matches"] += 1
         try:
             if truth:
                 ctx.call(PC.to_matched_score, score_kinds[sk], perf_kinds[pk], al())
+            elif not dangling_perf:
+                tab, ids_ = ctx.call(PC.to_matched_score, score_kinds[sk], perf_kinds[pk], al())
+                ctx.check()
+                if len(tab) or len(ids_):
+                    emit("table-not-empty-for-an-alignment-without-matches", f"to_matched_score returned {len(tab)} rows / {len(ids_)} ids", None)
         except core.PartituraRaised as pr:
             tms_ok = False
             if dangling_perf and isinstance(pr.exc, KeyError):
